@@ -687,9 +687,9 @@ func c30Probes(rng *rand.Rand, ch ledger.ChartOfAccounts) (random []string, boun
 		if len(p) > 1 {
 			add(&boundary, p[:len(p)-1]) // too short
 		}
-		add(&boundary, append(append([]string{}, p...), "extra"))                                 // too long
-		add(&boundary, append(append([]string{}, p...), c30Names[rng.Intn(len(c30Names))]))       // too long, plausible name
-		add(&boundary, append(append([]string{}, p...), ""))                                       // trailing ':'
+		add(&boundary, append(append([]string{}, p...), "extra"))                           // too long
+		add(&boundary, append(append([]string{}, p...), c30Names[rng.Intn(len(c30Names))])) // too long, plausible name
+		add(&boundary, append(append([]string{}, p...), ""))                                // trailing ':'
 		for j := range p {
 			q := append([]string{}, p...)
 			q[j] = "zz9-altered"
